@@ -353,7 +353,11 @@ class Interproc:
                     cond = cpc.reach(self.cfgs.get(callee.fq).exit).drop_unused()
                     if cond.is_true():
                         continue
-                    lifted = self.rename_cond(cond, callee, caller, node, tag=f"_{k}" if k else "")
+                    # callee locals are qualified per call site: the n-th call in this caller, and the caller's name when
+                    # the callee is also called from elsewhere (otherwise two call sites would share one atom)
+                    other_callers = {c_.fq for c_, _n in self.callers.get(callee.fq, [])} - {fq}
+                    tag = (f"_{caller.name.lstrip('_')}" if other_callers else "") + (f"_{k}" if k else "")
+                    lifted = self.rename_cond(cond, callee, caller, node, tag=tag)
                     call_post[nid] = call_post[nid] & lifted if nid in call_post else lifted
                 self._in_progress.discard(fq)
             self._pc[fq] = PathCond(self.cfgs.get(fq), call_post=call_post, max_atoms=20)
